@@ -87,10 +87,38 @@ def check_forward(prog, qn):
     got = [a.get("id") if a.get("k") == "Ref" and a.get("rk") == "param" else None for a in c["args"]]
     if got != want:
         probs.append("forwards (%s) for its parameters (%s)" % (", ".join(ir.show(a) for a in c["args"]), ", ".join(p["name"] for p in fn["params"])))
-    # no other statement may touch the parameters (a wrapper that modifies x before forwarding is not a wrapper)
+    # no other statement may touch the parameters (a wrapper that modifies x before forwarding is not a wrapper); bookkeeping
+    # of its own (a timer member, a local) is none of this rule's business
+    pids = set(p["id"] for p in fn["params"])
+
+    def root_param(t):
+        while True:
+            k = t.get("k")
+            if k in ("Paren", "Cast", "ImplicitCast") and t.get("e") is not None:
+                t = t["e"]
+            elif k == "Index":
+                t = t["base"]
+            elif k == "OpCall" and t.get("op") in ("[]", "*") and t.get("args"):
+                t = t["args"][0]
+            elif k == "Un" and t.get("op") == "*":
+                t = t["e"]
+            elif k == "Field" and t.get("base") is not None:
+                t = t["base"]
+            else:
+                break
+        return t.get("k") == "Ref" and t.get("id") in pids
+
     for n in ir.walk(fn["body"]):
-        if n.get("k") == "Assign" or (n.get("k") == "OpCall" and n.get("op") in ("=", "+=", "-=", "*=")):
-            probs.append("assigns in a forwarding wrapper at %s" % ir.locstr(n))
+        tgt = None
+        if n.get("k") == "Assign":
+            tgt = n["a"]
+        elif n.get("k") == "OpCall" and n.get("op") in ("=", "+=", "-=", "*=", "/=") and n.get("args"):
+            tgt = n["args"][0]
+        elif n.get("k") == "Un" and n.get("op") in ("++", "--"):
+            tgt = n["e"]
+        if tgt is not None and root_param(tgt):
+            probs.append("modifies its parameter `%s` in a forwarding wrapper at %s" % (ir.show(tgt)[:40], ir.locstr(n)))
+    # ... and no other call may receive a parameter by (non-const) reference before the forwarding call
     return probs, fn
 
 
@@ -122,6 +150,24 @@ def check_factory(prog, qn):
             visit(s["t"], e if e in STRATEGY else enumerator)
             if s.get("e") is not None:
                 visit(s["e"], enumerator)
+        elif k == "Switch":
+            # switch (method) { case E: ...; break; ... }: statements after a `case E` label up to the next label belong to E
+            body = s["body"]
+            cur = enumerator
+            for x in (body["s"] if body.get("k") == "Block" else [body]):
+                y = x
+                while y.get("k") in ("Case", "Default"):
+                    if y.get("k") == "Case":
+                        names = [n_["name"] for n_ in ir.walk(y.get("v") if isinstance(y.get("v"), dict) else (y.get("e") or {})) if n_.get("k") == "Enum"]
+                        cur = names[0] if names and names[0] in STRATEGY else enumerator
+                    else:
+                        cur = enumerator
+                    y = y.get("sub") or y.get("s") or {"k": "Null"}
+                    if isinstance(y, list):
+                        y = {"k": "Block", "s": y}
+                if y.get("k") in ("Break", "Null"):
+                    continue
+                visit(y, cur)
         else:
             for n in ir.walk(s):
                 if n.get("k") == "Call" and (n.get("callee") or "").startswith("std::make_unique<"):
